@@ -36,6 +36,9 @@ def main():
         demo_cmd = meta.get("demo_cmd", "")
         demo_cmd = demo_cmd.replace(f"/tmp/seed-{prop}", wt)
         demo_cmd = re.sub(r"cd\s+" + re.escape(wt) + r"\s*&&", "", demo_cmd)
+        demo_cmd = re.sub(r"\s{2,}\(.*$", "", demo_cmd, flags=re.S)  # trailing explanatory text
+        if os.environ.get("SEED_DEMO_CMD"):
+            demo_cmd = os.environ["SEED_DEMO_CMD"].replace("{wt}", wt).replace("{src}", src)
         # demonstration without the change
         rc0, out0 = sh(demo_cmd, wt)
         result["demo_without_change"] = {"rc": rc0, "tail": out0[-600:]}
